@@ -5,6 +5,7 @@ import (
 	"go/ast"
 	"go/token"
 	"go/types"
+	"math/big"
 	"strings"
 
 	"golang.org/x/tools/go/ssa"
@@ -18,6 +19,7 @@ func init() {
 		Decides: "R2.1: RewritePacket stores only to header bytes 1, 2, 3 and to the VP8 picture-id byte(s) reached through the X and I descriptor bits; byte 1 is only ever OR-ed with the marker bit, under setMarker. " +
 			"R2.2: the polarity of each delta along its chain is negative ('forwarded = source - withheld'): Drop adds +1 per withheld frame to the picture-id delta and -1 per withheld packet to the seqno delta, the map returns them unchanged, and the product of the coefficients with which Write passes them on and the rewriter applies them must make the forwarded number decrease. " +
 			"R2.3: the buffer handed to the rewriter is a pooled copy of exactly the bytes received (never the caller's buffer, which aliases the cached packet), and the rewritten slice written out has the same length. " +
+			"R2.5: the octet that carries the M (15-bit) flag of the picture id is written with values in [128,255] where the flag was set and [0,127] where it was clear (interval proof); the single accumulation of the picture-id shift in Drop precedes every successful return. " +
 			"R2.4: the marker is set only on a frame's last packet of the selected spatial layer when it was not already set.",
 		NotDecided: []string{
 			"that timestamp and payload equal the publisher's beyond the rewriter's write-set (pion's own header handling is trusted)",
@@ -29,6 +31,7 @@ func init() {
 }
 
 func runC02(c *Ctx) {
+	defer runC02Bits(c)
 	p := c.P
 	c.Rule("R2.1", "E2/E4", "write-set of codecs.RewritePacket", 6)
 	c.Rule("R2.2", "E6", "delta polarity along producer -> carrier -> consumer", 2)
@@ -334,4 +337,113 @@ func runC02(c *Ctx) {
 		})
 		c.Check(okMarker, "R2.4", "marker only at the end of a frame of the selected spatial layer", wr.Pos(), "setMarker = flags.Sid == layer.sid && flags.End && !flags.Marker", "the marker can be set on a packet that is not the last of a frame of the forwarded spatial layer")
 	}
+}
+
+// R2.5: the rewriter keeps the descriptor bit that says how long the picture
+// id is (M), and Drop counts every withheld frame.
+func runC02Bits(c *Ctx) {
+	p := c.P
+	c.Rule("R2.5", "E6", "the M bit of the picture-id octet is preserved (interval proof); every successful Drop accumulates the picture-id shift", 2)
+	rp := p.Func("codecs", "", "RewritePacket")
+	dr := p.Func("packetmap", "Map", "Drop")
+	if rp == nil || dr == nil {
+		c.Unknown("R2.5", "anchors", 0, "RewritePacket / Drop not found")
+		return
+	}
+	fn := p.SSAFunc(rp.Obj)
+	fi := p.Intervals().Analyze(fn)
+	var dataP ssa.Value
+	for _, q := range fn.Params {
+		if q.Name() == "data" {
+			dataP = q
+		}
+	}
+	// the M test: (data[offset] & 0x80) != 0 whose true edge leads to the 2-byte form
+	isMTest := func(cond ssa.Value) (ssa.Value, bool) {
+		bo, ok := cond.(*ssa.BinOp)
+		if !ok || bo.Op != token.NEQ {
+			return nil, false
+		}
+		and, ok := bo.X.(*ssa.BinOp)
+		if !ok || and.Op != token.AND {
+			return nil, false
+		}
+		if k, ok := and.Y.(*ssa.Const); !ok || k.Int64() != 0x80 {
+			return nil, false
+		}
+		ld, ok := and.X.(*ssa.UnOp)
+		if !ok || ld.Op != token.MUL {
+			return nil, false
+		}
+		ia, ok := ld.X.(*ssa.IndexAddr)
+		if !ok || ia.X != dataP {
+			return nil, false
+		}
+		return ia.Index, true
+	}
+	n, bad := 0, ""
+	for _, b := range fn.Blocks {
+		for _, ins := range b.Instrs {
+			st, ok := ins.(*ssa.Store)
+			if !ok {
+				continue
+			}
+			ia, ok := st.Addr.(*ssa.IndexAddr)
+			if !ok || ia.X != dataP {
+				continue
+			}
+			if _, isConst := ia.Index.(*ssa.Const); isConst {
+				continue // fixed header bytes
+			}
+			// which side of the M test of this very octet?
+			side := 0
+			for x := b; x != nil && side == 0; x = x.Idom() {
+				if len(x.Preds) != 1 {
+					continue
+				}
+				pr := x.Preds[0]
+				iff, ok := pr.Instrs[len(pr.Instrs)-1].(*ssa.If)
+				if !ok {
+					continue
+				}
+				if idx, isM := isMTest(iff.Cond); isM && idx == ia.Index {
+					if pr.Succs[0] == x {
+						side = 1
+					} else {
+						side = -1
+					}
+				}
+			}
+			if side == 0 {
+				continue // the second octet of a 15-bit id, or not a picture-id octet
+			}
+			n++
+			iv := fi.At(st.Val, b)
+			okBit := !iv.empty() && ((side == 1 && iv.Lo.Cmp(big.NewInt(128)) >= 0 && iv.Hi.Cmp(big.NewInt(255)) <= 0) || (side == -1 && iv.Lo.Sign() >= 0 && iv.Hi.Cmp(big.NewInt(127)) <= 0))
+			if !okBit {
+				bad = fmt.Sprintf("%s (value in %s on the M=%v side)", p.PosStr(st.Pos()), iv, side == 1)
+			}
+		}
+	}
+	c.Check(n >= 2 && bad == "", "R2.5", "the rewritten picture-id octet keeps its M bit", rp.Pos(), fmt.Sprintf("%d stores: [128,255] where M was set, [0,127] where it was clear", n), "the octet that carries the M bit can be written with the bit changed at "+bad+": a 7-bit id is then parsed as a 15-bit id (payload shifted by one byte)")
+	// Drop: the picture-id shift is accumulated on every successful path
+	sdr := p.SSAFunc(dr.Obj)
+	fPid := p.Field("packetmap", "Map", "pidDelta")
+	sts := storesToField(sdr, fPid)
+	okAll := len(sts) == 1
+	if okAll {
+		for _, b := range sdr.Blocks {
+			r, isR := b.Instrs[len(b.Instrs)-1].(*ssa.Return)
+			if !isR || b == sdr.Recover {
+				continue
+			}
+			v := returnVals(r)[0]
+			if k, isC := v.(*ssa.Const); isC && k.Value != nil && k.Value.String() == "true" {
+				if !instrBefore(sts[0], r) {
+					okAll = false
+				}
+			}
+		}
+	}
+	c.Check(okAll, "R2.5", "every successful Drop accumulates the picture-id shift", dr.Pos(), "the single store to pidDelta precedes every return true", "a frame can be withheld without its picture id being counted (e.g. only when the id does not wrap): the receiver sees a hole in the picture ids")
 }
